@@ -28,6 +28,22 @@ the lone-'{' radical operand for brace-free trees).  Only *instances* of
   H(s[:a]) + H(s[a:b]) + H(s[b:]) = H(s),  H(sep.join(xs)) = sum H(x) + (n-1) H(sep),  H >= 0
 are used (no quantifiers); they are theorems of the string semantics and are
 listed as assumptions because LB/RB/NW are uninterpreted for the solver.
+
+Round 7 (content, deductive).  Summarised string lists carry two CONTENT ghosts: `cat` (the concatenation of the
+items = what "".join returns) and `items` (the item sequence, z3 Seq(String); sep.join(xs) is the term SJOIN(sep, items)).
+  * convert_greek_and_symbols: `ensures#is-the-charwise-map-of-its-argument` -- result == CONV(text) where CONV is the
+    DEFINED spec function CONV("") = "", CONV(s ++ c) = CONV(s) ++ G1(c), G1 = table lookup else identity (instances on the
+    prefixes of the iterated string).  The former ASSUMED "CONV is a function of its argument" is implied by it.
+  * loops over an Element (default branch of the worker, top-level loop): history ghost CH(e, i) of the loop execution,
+    invariant content(acc) == content(acc at entry) ++ CH(e, i); every iteration makes exactly ONE worker call, on child i,
+    and the accumulator gains exactly its result.  `ensures#template.default-children-in-order` (worker) and
+    `ensures#children-results-in-order-then-closer` (omml_to_latex).
+  * loops / comprehensions over e.findall(T) that call the worker: items(acc) == items(acc at entry) ++ RS(e, i);
+    a loop over rows whose ONE inner loop calls the worker: item i == ' & '.join(results on the cells of row i).
+    `ensures#template.d-operands-in-order`, `ensures#template.m-cells-in-order`.
+  Whether a loop carries a content claim is decided on its syntax before the body runs (`direct_worker_call`), so the claim
+  holds on every path or is not made at all.  The defining equations of the history ghosts are added to the path by the
+  invariant function itself (`content_conj` / `items_conj`): they define fresh function symbols, nothing about the code.
 """
 import ast
 
@@ -252,7 +268,7 @@ def source_literals(fnode):
     return out + list(CLOSER) + list(CLOSER.values()) + list(FUNCS)
 
 
-_HOM_NAMES = ("count_lbrace", "count_rbrace", "count_nonspace")
+_HOM_NAMES = ("count_lbrace", "count_rbrace", "count_nonspace", "str_join")
 _MENTIONS: dict = {}
 
 
@@ -601,7 +617,47 @@ def m_partition(ex, st, args, kwargs, node):
 
 
 def zero_sums():
-    return {"n": z3.IntVal(0), "LB": z3.IntVal(0), "RB": z3.IntVal(0), "NW": z3.IntVal(0)}
+    return {"n": z3.IntVal(0), "LB": z3.IntVal(0), "RB": z3.IntVal(0), "NW": z3.IntVal(0), "cat": sval(""), "items": z3.Empty(SS)}
+
+
+def cat2(a, b):
+    """a ++ b on string terms, the empty literal dropped"""
+    if z3.is_string_value(a) and z3_str_value(a) == "":
+        return b
+    if z3.is_string_value(b) and z3_str_value(b) == "":
+        return a
+    return z3.Concat(a, b)
+
+
+SS = z3.SeqSort(S)                                          # round 7: the ITEMS ghost of a list of str (a sequence of strings)
+SJOIN = z3.Function("str_join", S, SS, S)                   # sep.join(items) as a term over the items (never unfolded)
+
+
+def seqcat(a, b):
+    if a.eq(z3.Empty(SS)):
+        return b
+    if b.eq(z3.Empty(SS)):
+        return a
+    return z3.Concat(a, b)
+
+
+def items_of(d):
+    """the ITEMS ghost of a list summary (an unconstrained sequence when the summary never recorded it)"""
+    if d is None:
+        return None
+    if d.get("items") is None:
+        d["items"] = z3.Const(fresh_name("items"), SS)
+    return d["items"]
+
+
+def cat_of(d):
+    """round 7: the CONTENT ghost of a list of str = the concatenation of its items in list order (what `"".join` returns);
+    a summary that never recorded it (itertext, lists a call appended to) gets an unconstrained one"""
+    if d is None:
+        return None
+    if d.get("cat") is None:
+        d["cat"] = z3.String(fresh_name("cat"))
+    return d["cat"]
 
 
 def sums_of(st, ref):
@@ -615,6 +671,11 @@ def sums_of(st, ref):
         d = {"n": z3.IntVal(len(o.data))}
         for h in HN:
             d[h] = z3.Sum([hom(h, x.t) for x in o.data]) if o.data else z3.IntVal(0)
+        c_, i_ = sval(""), z3.Empty(SS)
+        for x in o.data:
+            c_ = cat2(c_, x.t)
+            i_ = seqcat(i_, z3.Unit(x.t))
+        d["cat"], d["items"] = c_, i_
         return d
     return None
 
@@ -632,6 +693,10 @@ def m_join(ex, st, args, kwargs, node):
     for h in HN:
         st.assume(HOMS[h][0](j) == sm[h] + gaps * HOMS[h][1](sep.const()))
     st.assume(z3.Implies(n == 0, j == sval("")))
+    if sep.const() == "":
+        st.assume(j == cat_of(sm))          # "".join(xs) IS the concatenation of the items (content ghost, round 7)
+    else:
+        st.assume(j == SJOIN(sval(sep.const()), items_of(sm)))      # names the join by its separator and items (definition)
     st.ghost["joins"] = st.ghost.get("joins", ()) + ((sep.const(), lst.ref, j),)
     return [(st, VStr(j))]
 
@@ -654,6 +719,36 @@ def install(reg):
 
 
 # ---- pack-local executor ---------------------------------------------------------
+def direct_worker_call(nodes):
+    """does the loop body call the worker (or a helper it is split into) outside any inner loop / comprehension / def?
+    (decided on the syntax BEFORE the body runs: a content claim is made for the loop on every path or on none)"""
+    names = {PE_NAME} | set(HELPERS)
+
+    def rec(n):
+        if isinstance(n, ast.Call) and isinstance(n.func, ast.Name) and n.func.id in names:
+            return True
+        for ch in ast.iter_child_nodes(n):
+            if isinstance(ch, (ast.For, ast.While, ast.ListComp, ast.SetComp, ast.DictComp, ast.GeneratorExp, ast.FunctionDef,
+                               ast.Lambda, ast.AsyncFunctionDef)):
+                continue
+            if rec(ch):
+                return True
+        return False
+    return any(rec(n) for n in nodes if not isinstance(n, (ast.For, ast.While, ast.FunctionDef, ast.AsyncFunctionDef)))
+
+
+def nested_worker_loop(nodes):
+    """the loop body contains exactly ONE inner loop / list comprehension that calls the worker itself (rows of a matrix)"""
+    found = []
+    for n in nodes:
+        for x in ast.walk(n):
+            if isinstance(x, ast.For) and direct_worker_call(x.body):
+                found.append(x)
+            elif isinstance(x, ast.ListComp) and direct_worker_call([ast.Expr(x.elt)]):
+                found.append(x)
+    return len(found) == 1
+
+
 def own_nodes(fnode, types):
     """nodes of `types` in fnode, not inside nested function definitions, in source order"""
     out = []
@@ -778,6 +873,8 @@ class C19Executor(Executor):
         d["n"] = d["n"] + 1
         for h in HN:
             d[h] = d[h] + hom(h, v.t)
+        d["cat"] = cat2(cat_of(w.data), v.t)
+        d["items"] = seqcat(items_of(w.data), z3.Unit(v.t))
         w.data = d
 
     def is_strlist(self, st, ref):
@@ -869,6 +966,8 @@ class C19Executor(Executor):
                 for h in HN:
                     f = HOMS[h][0]
                     fs.append(hom(h, prefix(t, i + 1)) == hom(h, prefix(t, i)) + f(ch))
+                if self.contract is not None and self.contract.target.endswith("::convert_greek_and_symbols"):
+                    fs += conv_def_instances(t, i)
                 return fs
             return z3.Length(t), (lambda i: VStr(z3.SubString(t, i, 1))), facts
         return None
@@ -920,6 +1019,8 @@ class C19Executor(Executor):
                 d = {k: z3.Int(fresh_name(f"acc{ref}.{k}")) for k in ("n",) + HN}
                 for k in d:
                     st.assume(d[k] >= 0)
+                d["cat"] = z3.String(fresh_name(f"acc{ref}.cat"))
+                d["items"] = z3.Const(fresh_name(f"acc{ref}.items"), SS)
                 st.heap[ref] = HeapObj("slist", d, None, o.fresh)
             else:
                 st.heap[ref] = HeapObj("unk", None, o.cls, False)
@@ -958,7 +1059,8 @@ class C19Executor(Executor):
         entry = st.fork()
         inv = spec.inv if spec is not None else None
         accs = sorted(r for r in (set(self.mutated_refs(nodes, st)) | set(accs_extra)) if self.is_strlist(st, r))
-        extra = {"accs": accs, "svars": self.string_accumulators(st, nodes)}
+        extra = {"accs": accs, "svars": self.string_accumulators(st, nodes), "calls_worker": direct_worker_call(nodes)}
+        extra["nested"] = (not extra["calls_worker"]) and nested_worker_loop(nodes)
         src = it.tag if isinstance(it, VSeq) and isinstance(it.tag, dict) else None
         for r in accs:                                        # which sequence the items of this list come from
             if ("comp_src", r) not in st.ghost:
@@ -1051,6 +1153,21 @@ class C19Executor(Executor):
 
 def prefix(t, k):
     return z3.simplify(z3.SubString(t, z3.IntVal(0), k))
+
+
+# ---- round 7: CONV is a DEFINED spec function (the char-wise map), no longer a bare "function of its argument" --------------
+#   CONV("") = ""        CONV(s ++ c) = CONV(s) ++ G1(c)   (c one character)        G1(c) = GREEK_TO_LATEX[c] if c is a key, else c
+# Only instances of the two defining equations are handed to the solver (on the prefixes of the iterated string); the table is
+# the evaluated module constant of the real source (its sanity is the `tables` obligations).
+GREEK_SPEC: dict = {}
+
+
+def G1(ch):
+    return ite_chain([(ch == sval(k), sval(v)) for k, v in GREEK_SPEC.items() if isinstance(k, str) and isinstance(v, str)], ch)
+
+
+def conv_def_instances(t, i):
+    return [CONV(prefix(t, i + 1)) == z3.Concat(CONV(prefix(t, i)), G1(z3.SubString(t, i, 1)))]
 
 
 EXECUTOR = C19Executor
@@ -1157,8 +1274,130 @@ def conv_loop_inv(lc):
             return z3.BoolVal(False)
         d_bal = d_bal + (bal_of(now) - bal_of(ent))
         d_D = d_D + (D_of(now) - D_of(ent))
-    return z3.And(p_inv(p_now),
+    base = z3.And(p_inv(p_now),
                   z3.Implies(cond, z3.And(open_(p_now) - open_(p_ent) == d_bal, d_D >= 0, p_not_rbrace(p_now))))
+    try:
+        cc = content_conj(lc)
+    except Exception:  # noqa  (shape not recognised: no content claim; the content ensures then stays unproved)
+        cc = None
+    return base if cc is None else z3.And(base, cc)
+
+
+def end_of_iteration(lc):
+    """the invariant is being evaluated at the end of the body (index `i + 1`, i the fresh index constant of the loop rule), not at
+    loop entry (0), at the start of the body (i) or after the loop (the length term)"""
+    t = lc.i
+    return z3.is_add(t) and t.num_args() == 2 and z3.is_int_value(t.arg(1)) and t.arg(1).as_long() == 1 and \
+        z3.is_const(t.arg(0)) and t.arg(0).decl().kind() == z3.Z3_OP_UNINTERPRETED
+
+
+def content_conj(lc):
+    """round 7 (ORDER / ONCE, deductive): a loop of the converter that iterates over an Element itself (the default branch of the
+    worker, the top-level loop of omml_to_latex).  History ghost of THIS loop execution
+        CH(e, 0) = ""      CH(e, i+1) = CH(e, i) ++ r_i      r_i = result of the ONE worker call of iteration i, made on child i
+    (defining equations, added to the path as the iteration supplies r_i), invariant
+        content(accumulator) == content(accumulator at loop entry) ++ CH(e, i)
+    i.e. every iteration calls the worker exactly once, on the i-th child, and the accumulator gains exactly that result (an
+    iteration may drop it only when it is the empty string).  An iteration with no / several worker calls, or a call on
+    something else than child i -> False (candidate; the native replayer decides).  None: not such a loop."""
+    it = lc.seq
+    if isinstance(it, VSeq) and isinstance(it.tag, dict) and it.tag.get("findall") is not None:
+        return items_conj(lc)
+    if not (isinstance(it, VExt) and it.sort == "Element"):
+        return None
+    pairs = acc_pairs(lc)
+    if len(pairs) != 1 or pairs[0][0] is None or pairs[0][1] is None or not lc.extra.get("calls_worker"):
+        return None
+    e = it.t
+    CH = lc.extra.get("chcat")
+    if CH is None:
+        CH = lc.extra["chcat"] = z3.Function(fresh_name("children_results"), El, I, S)
+    known = lc.st.ghost.get("content_loops", ())
+    if not any(x[1].eq(CH) for x in known):
+        lc.st.ghost["content_loops"] = known + ((e, CH),)
+    now, ent = cat_of(pairs[0][0]), cat_of(pairs[0][1])
+    lc.st.assume(CH(e, z3.IntVal(0)) == sval(""))
+    if end_of_iteration(lc):                                   # end of iteration i (lc.i is i + 1)
+        i0 = z3.simplify(lc.i - 1)
+        n_ent = len([x for x in lc.entry.ghost.get("rcalls", ()) if x[0] == PE])
+        new = [x for x in lc.st.ghost.get("rcalls", ()) if x[0] == PE][n_ent:]
+        if len(new) != 1:
+            return z3.BoolVal(False)
+        (_t, am, rv) = new[0]
+        a = next(iter(am.values()))
+        if not (isinstance(a, VExt) and a.t.eq(CHILD(e, i0)) and isinstance(rv, VStr)):
+            return z3.BoolVal(False)
+        lc.st.assume(CH(e, lc.i) == z3.Concat(CH(e, i0), rv.t))
+    return now == cat2(ent, CH(e, lc.i))
+
+
+NESTED_SPEC = {"mr": ("e", " & ")}          # documented form of a matrix: the cells (m:e) of a row (m:mr) joined by ' & '
+
+
+def items_conj(lc):
+    """the same for a loop / comprehension over `e.findall(T)` whose ONE accumulator is a list of str (operands of m:d): history
+        RS(e, 0) = []      RS(e, i+1) = RS(e, i) ++ [r_i]      r_i = result of the ONE worker call of iteration i, made on item i
+    invariant   items(accumulator) == items(accumulator at loop entry) ++ RS(e, i).   None: not such a loop (no claim)."""
+    it = lc.seq
+    e, path = it.tag["findall"]
+    accs = lc.extra.get("accs", ())
+    if len(accs) != 1 or lc.extra.get("svars"):
+        return None
+    now, ent = sums_of(lc.st, accs[0]), sums_of(lc.entry, accs[0])
+    if now is None or ent is None:
+        return None
+    n_ent = len([x for x in lc.entry.ghost.get("rcalls", ()) if x[0] == PE])
+    new = [x for x in lc.st.ghost.get("rcalls", ()) if x[0] == PE][n_ent:]
+    nested = None
+    if not lc.extra.get("calls_worker"):
+        # rows of a matrix: no worker call of its own, ONE inner loop that has -- item i is rendered as the documented join of
+        # the results of that inner loop over the item's cells (NESTED_SPEC: outer path -> (cell tag, cell separator))
+        if lc.extra.get("nested") and any(path == Q(k) for k in NESTED_SPEC):
+            nested = [v for k, v in NESTED_SPEC.items() if path == Q(k)][0]
+        else:
+            return None                                   # a loop that renders nothing itself: no content claim
+    RS = lc.extra.get("rseq")
+    if RS is None:
+        RS = lc.extra["rseq"] = z3.Function(fresh_name("operand_results"), El, I, SS)
+    known = lc.st.ghost.get("item_loops", ())
+    if not any(x[2].eq(RS) for x in known):
+        lc.st.ghost["item_loops"] = known + ((e, path, RS),)
+    lc.st.assume(RS(e, z3.IntVal(0)) == z3.Empty(SS))
+    if end_of_iteration(lc) and nested is not None:
+        i0 = z3.simplify(lc.i - 1)
+        item = it.elem(i0).t
+        before = lc.entry.ghost.get("item_loops", ())
+        inner = [x for x in lc.st.ghost.get("item_loops", ()) if not x[2].eq(RS) and not any(x[2].eq(y[2]) for y in before)]
+        if len(new) != 0 or len(inner) != 1 or not inner[0][0].eq(item) or inner[0][1] != Q(nested[0]):
+            return z3.BoolVal(False)
+        row = SJOIN(sval(nested[1]), inner[0][2](item, NFINDALL(item, sval(Q(nested[0])))))
+        lc.st.assume(RS(e, lc.i) == z3.Concat(RS(e, i0), z3.Unit(row)))
+    elif end_of_iteration(lc):
+        i0 = z3.simplify(lc.i - 1)
+        if len(new) != 1:
+            return z3.BoolVal(False)
+        (_t, am, rv) = new[0]
+        a = next(iter(am.values()))
+        if not (isinstance(a, VExt) and a.t.eq(it.elem(i0).t) and isinstance(rv, VStr)):
+            return z3.BoolVal(False)
+        lc.st.assume(RS(e, lc.i) == z3.Concat(RS(e, i0), z3.Unit(rv.t)))
+    return items_of(now) == seqcat(items_of(ent), RS(e, lc.i))
+
+
+def operands_in_order(c, e, child, sep):
+    """sep.join(results of the worker on every `child` child of e, in order), from the one item loop over e.findall(child)"""
+    loops = [x for x in c.st.ghost.get("item_loops", ()) if x[0].eq(e) and x[1] == Q(child)]
+    if len(loops) != 1:
+        return z3.String(fresh_name("no-unique-loop-over-the-operands"))
+    return SJOIN(sval(sep), loops[0][2](e, NFINDALL(e, sval(Q(child)))))
+
+
+def content_of_children(c, e):
+    """CH(e, len(e)) of the one content loop over `e` on this path (a fresh unconstrained string if there is none)"""
+    loops = [x for x in c.st.ghost.get("content_loops", ()) if x[0].eq(e)]
+    if len(loops) != 1:
+        return z3.String(fresh_name("no-unique-loop-over-the-children"))
+    return loops[0][1](e, NCH(e))
 
 
 def acc_pairs(lc):
@@ -1166,7 +1405,7 @@ def acc_pairs(lc):
     out = [(sums_of(lc.st, r), sums_of(lc.entry, r)) for r in lc.extra.get("accs", ())]
     for name in lc.extra.get("svars", ()):
         a, b = lc.st.lookup(name), lc.entry.lookup(name)
-        out.append((H3(a.t) if isinstance(a, VStr) else None, H3(b.t) if isinstance(b, VStr) else None))
+        out.append((dict(H3(a.t), cat=a.t) if isinstance(a, VStr) else None, dict(H3(b.t), cat=b.t) if isinstance(b, VStr) else None))
     return out
 
 
@@ -1181,7 +1420,9 @@ def greek_loop_inv(lc):
         return z3.BoolVal(False)                                  # only loops over the characters of `text`
     hp = H3(prefix(t, lc.i))
     now = pairs[0][0]
-    return z3.And(bal_of(sm) == bal_of(hp), D_of(sm) >= D_of(hp), now["LB"] >= 0, now["RB"] >= 0, now["NW"] >= 0)
+    # round 7 (content): what has been accumulated so far IS the char-wise map of the characters consumed so far
+    content = cat_of(now) == cat2(cat_of(pairs[0][1]), CONV(prefix(t, lc.i)))
+    return z3.And(bal_of(sm) == bal_of(hp), D_of(sm) >= D_of(hp), now["LB"] >= 0, now["RB"] >= 0, now["NW"] >= 0, content)
 
 
 def verifying(c):
@@ -1344,11 +1585,14 @@ def contracts(reg):
         greek = const_value(m, "GREEK_TO_LATEX")
         # the executor reads the same evaluated tables (whatever pure expression builds them in the source)
         reg.module_consts[(OMML, "GREEK_TO_LATEX")] = ops.lift(dict(greek))
+        GREEK_SPEC.clear()
+        GREEK_SPEC.update(dict(greek))
         if skip_tags(m) is not None:
             from pyvc.values import VSetC
             reg.module_consts[(OMML, "_SKIP_TAGS")] = VSetC(skip_tags(m), "_SKIP_TAGS")
     except (ValueError, TypeError):
         greek = {}
+        GREEK_SPEC.clear()
     fn_conv = m.functions["convert_greek_and_symbols"]
     fn_omml = m.functions["omml_to_latex"]
 
@@ -1360,6 +1604,7 @@ def contracts(reg):
         t = A0(c)
         if isinstance(t, VStr):
             fs += str_facts(t.t)
+        fs.append(CONV(sval("")) == sval(""))            # defining equation of the spec function (round 7)
         return z3.And(fs) if fs else z3.BoolVal(True)
 
     def tx(c):
@@ -1381,6 +1626,9 @@ def contracts(reg):
             ("counts-nonneg", lambda c: z3.And([v >= 0 for v in H3(c.result.t).values()])),
             ("balance-preserved", lambda c: bal_of(H3(c.result.t)) == bal_of(H3(tx(c)))),
             ("no-lone-brace", lambda c: D_of(H3(c.result.t)) >= D_of(H3(tx(c)))),
+            # round 7: the result IS the char-wise map of the argument (every character once, in order, table keys replaced by
+            # their commands).  This is what call sites use (`result_maker` = CONV(text)): verified here, no longer assumed.
+            ("is-the-charwise-map-of-its-argument", lambda c: c.result.t == CONV(tx(c)) if isinstance(c.result, VStr) else z3.BoolVal(False)),
         ],
         loops={"*": LoopSpec(inv=greek_loop_inv)},
         note="char-wise map through GREEK_TO_LATEX: total on str, preserves brace balance",
@@ -1444,6 +1692,48 @@ def contracts(reg):
         v = A0(c)
         return SIZE(v.t) if isinstance(v, VExt) else z3.IntVal(0)
 
+    def pe_d_operands(c):
+        """round 7: the operands of a delimiter are rendered each once, in document order, joined by ', ' between the delimiters"""
+        ev = A0(c)
+        if not verifying(c) or not isinstance(ev, VExt) or not isinstance(c.result, VStr):
+            return z3.BoolVal(True)
+        committed = path_tag(c)
+        if committed is not None and committed != "d":
+            return z3.BoolVal(True)
+        e = ev.t
+        left, right = own_val(e, "dPr", "begChr", "("), own_val(e, "dPr", "endChr", ")")
+        return z3.Implies(lname(e) == sval("d"), c.result.t == cat(left, operands_in_order(c, e, "e", ", "), right))
+
+    def pe_m_cells(c):
+        """round 7: a matrix is its rows in document order joined by ' \\\\ ', a row its cells in document order joined by ' & ',
+        a cell the result of the worker on it -- every cell rendered exactly once"""
+        ev = A0(c)
+        if not verifying(c) or not isinstance(ev, VExt) or not isinstance(c.result, VStr):
+            return z3.BoolVal(True)
+        committed = path_tag(c)
+        if committed is not None and committed != "m":
+            return z3.BoolVal(True)
+        e = ev.t
+        guard = z3.And(lname(e) == sval("m"), z3.Not(FINDNONE(e, sval(Q("mr")))))
+        return z3.Implies(guard, c.result.t == cat("\\begin{matrix}", operands_in_order(c, e, "mr", " \\\\ "), "\\end{matrix}"))
+
+    def pe_default(c):
+        """round 7: every element that is neither a structure nor a skipped property (m:r, m:e, m:num, m:oMath, unknown
+        wrappers ...) is rendered as the results of the worker on its children, each once, in document order"""
+        ev = A0(c)
+        if not verifying(c) or not isinstance(ev, VExt) or not isinstance(c.result, VStr):
+            return z3.BoolVal(True)
+        tags = skip_tags(mod(c.ex.module.repo))
+        if tags is None:
+            return z3.BoolVal(False)
+        committed = path_tag(c)
+        if committed is not None and committed != "m" and (committed in STRUCT_TAGS or committed in tags):
+            return z3.BoolVal(True)
+        e = ev.t
+        other = z3.And([lname(e) != sval(k) for k in STRUCT_TAGS if k != "m"] + [lname(e) != sval(k) for k in tags] +
+                       [z3.Or(lname(e) != sval("m"), FINDNONE(e, sval(Q("mr"))))])
+        return z3.Implies(other, c.result.t == content_of_children(c, e))
+
     out.append(FnContract(
         target=PE,
         params=[(pname(f"omml_to_latex.<locals>.{PE_NAME}", 0, "elem"), p_opt(p_ext("Element")))],
@@ -1458,7 +1748,9 @@ def contracts(reg):
             ("no-lone-brace", pe_aux),
             ("None-is-empty", pe_none),
             ("property-tags-skipped", pe_skip),
-        ] + [(f"template.{t}", template(t)) for t in STRUCT_TAGS],
+        ] + [(f"template.{t}", template(t)) for t in STRUCT_TAGS] + [("template.default-children-in-order", pe_default),
+                                                                      ("template.d-operands-in-order", pe_d_operands),
+                                                                      ("template.m-cells-in-order", pe_m_cells)],
         loops={"*": LoopSpec(inv=conv_loop_inv)},
         note="recursive; verified against its own contract at every recursive call",
     ))
@@ -1476,6 +1768,15 @@ def contracts(reg):
             return z3.BoolVal(True)
         return c.result.t == sval("")
 
+    def om_content(c):
+        """round 7: the result is the results of the worker on the children of the root, each once, in document order,
+        followed by nothing or by the one `}` that closes a radical still open at the end"""
+        ev = A0(c)
+        if not verifying(c) or not isinstance(ev, VExt) or not isinstance(c.result, VStr):
+            return z3.BoolVal(True)
+        ch = content_of_children(c, ev.t)
+        return z3.Or(c.result.t == ch, c.result.t == z3.Concat(ch, sval("}")))
+
     out.append(FnContract(
         target=f"{OMML}::omml_to_latex",
         params=[(pname("omml_to_latex", 0, "omath_element"), p_opt(p_ext("Element")))],
@@ -1492,6 +1793,7 @@ def contracts(reg):
             ("balanced-for-brace-free-trees", lambda c: z3.Implies(nb_of(A0(c)),
                                                                   bal_of(H3(c.result.t)) == 0)),
             ("None-is-empty", om_none),
+            ("children-results-in-order-then-closer", om_content),
         ],
         loops={"*": LoopSpec(inv=conv_loop_inv)},
         note="for every tree: no exception; brace-free tree => balanced output",
@@ -1708,9 +2010,12 @@ ASSUMED_MODELS = [
     "iteration over an Element = its children in order; TREE-FINITE (subtree size decreases)",
     "Element.itertext(): a finite sequence of str (brace-free in a brace-free tree), never raises",
     "str.split(sep): at least one part; str.strip(): removes only whitespace; str.index(sub): lowest occurrence or ValueError",
-    "sep.join(list of str): counts add up (+ (n-1) * count(sep))",
-    "convert_greek_and_symbols is a function of its argument (CONV) at call sites",
+    "sep.join(list of str): counts add up (+ (n-1) * count(sep)); ''.join(xs) = the concatenation of the items in list order; "
+    "sep.join(xs) is a function of sep and the item sequence (named SJOIN, never unfolded)",
 ]
+# round 7: "convert_greek_and_symbols is a function of its argument (CONV) at call sites" is no longer assumed: CONV is the
+# DEFINED char-wise map and `ensures#is-the-charwise-map-of-its-argument` proves result == CONV(text) on the real body; the
+# call-site view (result_maker = CONV(text)) is exactly that clause.
 ASSUMPTIONS = ["PY-STR", "PY-EXC", "PY-REC (modular recursion; decreases on subtree size)", "TREE-FINITE",
                "PY-ORDER", "'balanced' = equal numbers of '{' and '}' (DESIGN App. B)"]
 BOUNDED = ["replay grammar (round 4): every structure nested in every operand slot / matrix cell of every structure, m:subHide / "
@@ -1723,8 +2028,11 @@ BOUNDED = ["replay grammar (round 4): every structure nested in every operand sl
            "levels deep (level-dependent behaviour: recursion guards, budgets); deeper nesting is not searched",
            "order of the formula lists built at the docx / pptx call sites (display equations first, document order): "
            "native comparison on the container scope of replay/C19.py::site_scope, not proved",
-           "run texts emitted exactly once and in source order: checked natively by replay/C19.py on all schema-shaped "
-           "trees up to depth 2 / width 2 (small scope), not proved",
+           "run texts emitted exactly once and in source order FOR A WHOLE TREE: checked natively by replay/C19.py on all schema-shaped "
+           "trees up to depth 2 / width 2 (small scope). Round 7 proves the per-node steps on the real bodies (convert_greek_and_symbols "
+           "== the char-wise map; m:t == that map of its text; every structure == its documented form of the worker results on its "
+           "operands; m:d / m:m operands, rows and cells each once in document order; every other element and the root == the results "
+           "on its children each once in document order); the structural induction that composes them over the tree is NOT mechanised",
            "determinism beyond the syntactic policy obligations: double-run comparison in replay/C19.py (small scope)"]
 
 LOCK_OPTIONAL_KINDS = ("inv-init", "inv-preserve", "decreases", "call-pre")   # exist only while the code has the construct
